@@ -31,6 +31,10 @@ def patch_sleep():
         m.sleep = no_sleep
 
 
+# save()/load() failures inside histories are judged by the C10 check only (it sets this flag);
+# other properties' histories skip a save/load that raises
+STRICT_PERSIST = False
+
 CAP32 = 2**32 - 1
 BIGR = 1 << 20
 
